@@ -1661,7 +1661,16 @@ fn tz_local_zone(c: &mut Ctx, name: &str, trs: &[(i64, i32, i32)]) {
             // principles.  Cases whose wall clock — `l`, or the timestamp field seen through either offset — is
             // that second are only judged by the oracles that hold for any zone answer.
             let bsec = zone.t + o1;
-            let excepted = kind != "flat" && (ls == bsec || f[TS].map_or(false, |g| g + o1 == bsec || g + o2 == bsec || g + o1 - 1 == bsec || g + o2 - 1 == bsec));
+            // the wall clock the record resolves to has second 0 when the second field is not supplied
+            let ls_res = if m[SEC] { ls } else { ls - ls.rem_euclid(60) };
+            let excepted = kind != "flat"
+                && (ls == bsec || ls_res == bsec || f[TS].map_or(false, |g| g + o1 == bsec || g + o2 == bsec || g + o1 - 1 == bsec || g + o2 - 1 == bsec));
+            // The one-transition step zone describes `Local` only near the reference transition (the zone was checked
+            // 40 days to both sides).  A random field subset (mode 8, 9) can resolve somewhere else altogether — a
+            // two-digit year without its century reads 1968 as 2068 — so such records are compared with the model and
+            // judged against the reference offset only when they carry the full year or the timestamp.
+            let anchored = mode <= 7 || m[YEAR] || m[TS];
+            let near = |ts: i64| (ts - zone.t).abs() <= 35 * 86_400;
             if excepted {
                 c.count("tzlocal:boundary-second(excepted by C05)");
             }
@@ -1680,8 +1689,14 @@ fn tz_local_zone(c: &mut Ctx, name: &str, trs: &[(i64, i32, i32)]) {
             // ---- the resolver ----
             let r = guard(|| p.to_datetime_with_timezone(&tz));
             let s = show(r.clone(), szg);
-            if !excepted {
+            let result_near = match &r {
+                Ok(Ok(v)) => near(v.timestamp()),
+                _ => true,
+            };
+            if !excepted && anchored && result_near {
                 c.op(&format!("pr.tzstep {} {}", dump, ztxt), &s);
+            } else if !excepted {
+                c.count("tzlocal:not-compared(resolves away from the reference transition)");
             }
             c.count(&format!("tzlocal:{}:{}:{}:{}", name, kind, cls, kind_of(&s)));
             if k < 1 {
@@ -1701,7 +1716,7 @@ fn tz_local_zone(c: &mut Ctx, name: &str, trs: &[(i64, i32, i32)]) {
                         c.fail("to_datetime_with_timezone (Local): result contradicts the timestamp field", &format!("TZ={} [{}] -> {} (timestamp {})", name, dump, s, t));
                     }
                 }
-                if !excepted && voff != zone.offset_at(v.timestamp()) as i64 {
+                if !excepted && near(v.timestamp()) && voff != zone.offset_at(v.timestamp()) as i64 {
                     c.fail("to_datetime_with_timezone (Local): result offset is not the zone's reference offset at the result instant", &format!("TZ={} [{}] -> {}", name, dump, s));
                 }
                 let guessed = match f[TS] {
